@@ -1,4 +1,4 @@
--- PINNED by bin/pin_tables: copy of Gen/Dispatch.lean as generated from /repo at e9cf0dd — regenerate, do not edit
+-- PINNED by bin/pin_tables: copy of Gen/Dispatch.lean as generated from /repo at d15e01d — regenerate, do not edit
 namespace Ggql.Pinned
 def dispatchOrder : List String := ["resolver", "any", "reflect"]
 def opFallbackAnyName : Bool := false
@@ -29,6 +29,7 @@ def schemaDuringScan : Bool := false
 def objectUnchecked : Bool := false
 def argsInPlace : Bool := false
 def argsSortedOnce : Bool := false
+def condByIdentity : Bool := false
 def reflectOptionalRefused : Bool := false
 def inputDefaultsRaw : Bool := true
 def listNotCoerced : Bool := false
